@@ -18,13 +18,15 @@ func C14(r *core.Report) {
 		"R1 in tooling.LoadDataFromDataFrames every path to a success return passes the frame-count comparison when the first frame records a total, and passes a successful VerifyHash when it records a checksum (must-pass-through with the 'field absent' branches as the only bypass); every other consumer of a frame's bytes that verifies a present checksum does so before using them; " +
 		"R2 getAllFramesFromDataFrame orders the collected frames by their index with a strict ascending comparator before returning more than one frame, and the concatenation iterates that slice in order; R3 VerifyHash returns nil only when one of the two checksums equals the recorded one; the presence accessors HasHash/HasTotal/HasIndex depend only on nil-ness (a recorded value of 0 is still present); " +
 		"R4 in the indexer's transaction collector the per-transaction frame map is cleared on every path from one transaction to the next, so frames of two payloads cannot mix; R5 reassembled bytes are not handed out while aliasing a pooled or reused buffer. " +
-		"Not decided: the bytes themselves, fan-out shapes, faults a checksum-less payload cannot reveal."
+		"R7 no function of the reassembly rejects a payload because a count (frames, links, nesting depth) exceeds a constant: any frame count and fan-out reassembles. Not decided: the bytes themselves, fan-out shapes, faults a checksum-less payload cannot reveal."
 	c14Gates(r)
 	c14Order(r)
 	c14VerifyHash(r)
 	c14FrameMap(r)
 	c14NoPooledAlias(r)
 	c14SingleReassemblyPath(r)
+	c14NoConstantCap(r)
+	r.Floor("C14.R7", 2)
 	r.Floor("C14.R6", 6)
 	r.Floor("C14.R1", 4)
 	r.Floor("C14.R2", 2)
@@ -445,6 +447,30 @@ func c14Order(r *core.Report) {
 	if f == nil {
 		return
 	}
+	af := f
+	// the collector may only forward to a same-package worker (return collect(first, getter, 0)): analyse the worker
+	for d := 0; d < 3; d++ {
+		if len(f.Body.List) != 1 {
+			break
+		}
+		rs, ok := f.Body.List[0].(*ast.ReturnStmt)
+		if !ok || len(rs.Results) != 1 {
+			break
+		}
+		c, ok := core.Unparen(rs.Results[0]).(*ast.CallExpr)
+		if !ok {
+			break
+		}
+		fo := core.Callee(f.Pkg.TypesInfo, c)
+		if fo == nil {
+			break
+		}
+		h := p.ByObj[fo.Origin()]
+		if h == nil || h.Body == nil || h.Pkg != f.Pkg {
+			break
+		}
+		f = h
+	}
 	info := f.Pkg.TypesInfo
 	g := p.Graph(f)
 	// the sort: sort.Slice(frames, func(i,j) bool {...; return iIndex < jIndex}) with iIndex from frames[i].GetIndex()
@@ -541,7 +567,7 @@ func c14Order(r *core.Report) {
 			}
 		}
 	}
-	r.Check(sortNode != nil && okCmp, rule, f.Key+"#sorted-by-index-ascending", posP(r, f.Pos()), "frames are sorted by their recorded index with a strict ascending comparator",
+	r.Check(sortNode != nil && okCmp, rule, af.Key+"#sorted-by-index-ascending", posP(r, f.Pos()), "frames are sorted by their recorded index with a strict ascending comparator",
 		"the collected frames are not sorted by frame index with `index(i) < index(j)`: frames fetched in another order are concatenated in that order")
 	// every return of more than the first frame is dominated by the sort
 	if sortNode != nil {
@@ -567,10 +593,10 @@ func c14Order(r *core.Report) {
 				continue
 			}
 			n++
-			r.Check(g.Dominates(sortNode, rn), rule, fmt.Sprintf("%s#multi-frame-return@%d-sorted", f.Key, i), pos(r, rn.Ast), "the multi-frame result is sorted before being returned", "frames can be returned without having been sorted by index")
+			r.Check(g.Dominates(sortNode, rn), rule, fmt.Sprintf("%s#multi-frame-return@%d-sorted", af.Key, i), pos(r, rn.Ast), "the multi-frame result is sorted before being returned", "frames can be returned without having been sorted by index")
 		}
 		if n == 0 {
-			r.Undecided(rule, f.Key+"#multi-frame-return", posP(r, f.Pos()), "multi-frame return not found")
+			r.Undecided(rule, af.Key+"#multi-frame-return", posP(r, f.Pos()), "multi-frame return not found")
 		}
 	}
 	// the concatenation in LoadDataFromDataFrames iterates the slice in order
@@ -1108,4 +1134,60 @@ func assignedIn(f *core.Func, o types.Object) bool {
 		return !found
 	})
 	return found
+}
+
+// c14NoConstantCap (C14.R7): in the reassembly (LoadDataFromDataFrames, getAllFramesFromDataFrame and their same-package
+// callees) no branch that ends in an error only is taken because an integer quantity exceeds (or falls below) a constant
+// greater than one: a valid payload of any frame count, fan-out and nesting depth has to reassemble.
+func c14NoConstantCap(r *core.Report) {
+	const rule = "C14.R7"
+	p := r.Prog
+	seen := map[*core.Func]bool{}
+	for _, k := range []string{"tooling.LoadDataFromDataFrames", "tooling.getAllFramesFromDataFrame"} {
+		a := r.Anchor(rule, k)
+		if a == nil {
+			continue
+		}
+		for _, f := range pkgScope(p, a, 2) {
+			if seen[f] || f.Body == nil {
+				continue
+			}
+			seen[f] = true
+			info := f.Pkg.TypesInfo
+			g := p.Graph(f)
+			bad := ""
+			for _, e := range g.Nodes {
+				if e.Kind != core.KEdge || e.Ast == nil || e.Tag != nil {
+					continue
+				}
+				be, ok := core.Unparen(e.Ast.(ast.Expr)).(*ast.BinaryExpr)
+				if !ok {
+					continue
+				}
+				switch be.Op {
+				case token.LSS, token.GTR, token.LEQ, token.GEQ:
+				default:
+					continue
+				}
+				x, c, isC := orientConst(info, be)
+				if !isC || (c >= -1 && c <= 1) {
+					continue
+				}
+				if _, xc := core.ConstInt(info, x); xc {
+					continue
+				}
+				if bt, isB := info.TypeOf(x).Underlying().(*types.Basic); !isB || bt.Info()&types.IsInteger == 0 {
+					continue
+				}
+				if leadsToErrorOnly(g, f, e) {
+					bad = core.ExprStr(be)
+					if !e.Truth {
+						bad = "!(" + bad + ")"
+					}
+				}
+			}
+			r.Check(bad == "", rule, f.Key+"#no-constant-cap-on-counts", posP(r, f.Pos()), "no count is compared with a constant limit on the way to an error",
+				"a payload is rejected because a count exceeds a constant ["+bad+"]: a valid payload with more frames / deeper nesting than that is refused instead of reassembled")
+		}
+	}
 }
